@@ -431,9 +431,9 @@ func TestC19_Exhaustive(t *testing.T) {
 func drawCase(rt *rapid.T) *Case {
 	r := &Recipe{Seed: rapid.Uint64().Draw(rt, "seed")}
 	switch sz := rapid.IntRange(0, 19).Draw(rt, "size.class"); {
-	case sz < 11:
+	case sz < 12:
 		r.BaseLen = rapid.IntRange(0, 4096).Draw(rt, "base.len")
-	case sz < 18:
+	case sz < 19:
 		r.BaseLen = rapid.IntRange(4097, 1<<16).Draw(rt, "base.len")
 	default:
 		r.BaseLen = rapid.IntRange(1<<16+1, 1<<20).Draw(rt, "base.len")
